@@ -6,7 +6,7 @@
 //!   add <slot> <h,h,...>          add_hash for each hash, in this order -> nz=<number of non-zero registers afterwards>
 //!   show <slot>                   p=.. q=.. k=.. n=<#registers> regs=<run-length registers>
 //!   eq <a> <b>                    PartialEq                             -> true | false
-//!   merge <dst> <src>             dst.merge(&src)                       -> ok | err <Variant>
+//!   merge <dst> <src>             dst.merge(&src)                       -> ok nz=<non-zero registers of dst> | err <Variant>
 //!   refused <dst> <src>           merge again, observing the receiver   -> merged | refused unchanged | refused changed
 //!   save <slot>                   save_to_writer                        -> hdr=<7 bytes hex> len=<n> body=<run-length>
 //!   rt <dst> <src> plain|gz|file|ffi   save -> load into dst            -> <show of dst> same=<dst == src>
@@ -22,7 +22,14 @@
 //!                                 a fresh KmerMinHash (or KmerMinHashBTree converted into one) receives the
 //!                                 hashes in this order, then `mh.update(&mut hll)` / hll_update_mh -> mins=<#mins> nz=..
 //!   ashll <dst> <num> <scaled> <h,..>   KmerMinHash::as_hll()           -> <digest>
-//!   mergeffi <dst> <src>          hll_merge (C API)                     -> ok | err <Variant>
+//!   mergeffi <dst> <src>          hll_merge (C API)                     -> ok nz=.. | err <Variant>
+//!   clone <dst> <src>             Clone                                 -> <digest of dst> same=<dst == src>
+//!
+//! estimates, asked on the object itself (never on a copy) before and after mutations
+//!   card <slot> api|ffi           cardinality() / hll_cardinality       -> <n>
+//!   est <a> <b> api|ffi           a.union(b) a.intersection(b) a.similarity(b) a.containment(b), or
+//!                                 hll_intersection_size / hll_similarity / hll_containment
+//!                                                                       -> [u=..] i=.. s=<f64 bits> c=<f64 bits>
 //!   dg <slot>                     p=.. q=.. k=.. n=.. nz=.. sum=.. xor=.. fnv=.. first=<8> last=<8>
 //!
 //! persistence through every route (`rtd <dst> <src> <route>` -> <digest of dst> same=<dst == src>)
@@ -35,11 +42,12 @@
 //!   r1|r7    saved bytes through a reader that hands out 1 / at most 7 bytes per read() call
 //!   gzr7     gzip bytes through the <= 7 bytes reader       br  BufReader with a 16-byte buffer
 //!   w5       save_to_writer into a writer that accepts at most 5 bytes per write() call
+//!   json     serde_json::to_vec, serde_json::from_slice (the Serialize / Deserialize impls)
 //!   gzw5     niffler gzip writer (level 6) on top of that writer
 use sourmash::encodings::HashFunctions;
 use sourmash::ffi::hyperloglog::{
-    hll_add_hash, hll_add_sequence, hll_from_buffer, hll_from_path, hll_merge, hll_save, hll_to_buffer, hll_update_mh,
-    SourmashHyperLogLog,
+    hll_add_hash, hll_add_sequence, hll_cardinality, hll_containment, hll_from_buffer, hll_from_path, hll_intersection_size,
+    hll_merge, hll_save, hll_similarity, hll_to_buffer, hll_update_mh, SourmashHyperLogLog,
 };
 use sourmash::ffi::minhash::SourmashKmerMinHash;
 use sourmash::ffi::utils::{ForeignObject, LAST_ERROR};
@@ -177,9 +185,17 @@ fn emit_adds(o: &mut Out, r: &mut Rng, slot: u32, hs: &[u64]) {
     }
 }
 
-const ROUTES: [&str; 17] = [
-    "vec", "bufw", "path", "ffifile", "gz1", "gz6", "gz9", "gzfile1", "gzfile6", "gzfile9", "ffi", "r1", "r7", "gzr7", "br", "w5", "gzw5",
+const ROUTES: [&str; 18] = [
+    "vec", "bufw", "path", "ffifile", "gz1", "gz6", "gz9", "gzfile1", "gzfile6", "gzfile9", "ffi", "r1", "r7", "gzr7", "br", "w5", "gzw5", "json",
 ];
+
+fn api(r: &mut Rng) -> &'static str {
+    if r.chance(1, 2) {
+        "api"
+    } else {
+        "ffi"
+    }
+}
 
 /// (num, scaled) of a MinHash: a num sketch or a scaled one, never both
 fn mh_params(r: &mut Rng) -> (u64, u64) {
@@ -325,10 +341,25 @@ fn gen(a: &Args) {
         }
         // 3 = (A ∪ B) ∪ C
         o.op(&format!("new 3 {} {}", p, k));
+        let ask = r.chance(1, 2);
+        if ask {
+            o.op(&format!("card 3 {}", api(&mut r)));
+        }
         o.op("merge 3 0");
+        if ask {
+            o.op(&format!("card 3 {}", api(&mut r)));
+            o.op(&format!("est 3 1 {}", api(&mut r)));
+        }
         o.op("merge 3 1");
+        if ask {
+            o.op(&format!("card 3 {}", api(&mut r)));
+            o.op(&format!("est 3 1 {}", api(&mut r)));
+        }
         o.op("merge 3 2");
         o.op("show 3");
+        if ask {
+            o.op(&format!("card 3 {}", api(&mut r)));
+        }
         // 4 = A ∪ (B ∪ C), 5 = B ∪ C
         o.op(&format!("new 5 {} {}", p, k));
         o.op("merge 5 2");
@@ -416,6 +447,18 @@ fn gen(a: &Args) {
                 o.op(&format!("eq {} 0", i + 1));
             }
         }
+        // the loaded sketch as the ARGUMENT of a merge, into an empty and into a non-empty receiver
+        o.op(&format!("new 7 {} {}", p, k));
+        if r.chance(1, 2) {
+            let pre = multiset(&mut r, p, false);
+            emit_adds(&mut o, &mut r, 7, &pre);
+            o.op("merge 0 7");
+        }
+        o.op(&format!("card 7 {}", api(&mut r)));
+        o.op(if r.chance(1, 2) { "merge 7 1" } else { "mergeffi 7 1" });
+        o.op("show 7");
+        o.op("eq 7 0");
+        o.op(&format!("card 7 {}", api(&mut r)));
         // a loaded sketch keeps working: more insertions, a merge with the original, save again
         let more = multiset(&mut r, p, false);
         emit_adds(&mut o, &mut r, 1, &more);
@@ -436,7 +479,14 @@ fn gen(a: &Args) {
         o.op(&format!("new 0 {} {}", p, k));
         o.op(&format!("new 6 {} {}", p, k));
         let nsteps = r.range(2, 6);
+        let ask = r.chance(2, 3);
         for _ in 0..nsteps {
+            if ask && r.chance(2, 3) {
+                o.op(&format!("card 0 {}", api(&mut r)));
+                if r.chance(1, 3) {
+                    o.op(&format!("est 0 6 {}", api(&mut r)));
+                }
+            }
             match r.below(9) {
                 0 | 1 => {
                     let hs = multiset(&mut r, p, false);
@@ -463,6 +513,15 @@ fn gen(a: &Args) {
                     let hs = multiset(&mut r, p, false);
                     o.op(&format!("new 7 {} {}", p, k));
                     emit_adds(&mut o, &mut r, 7, &hs);
+                    // the argument as built, after a save/load, or as a clone
+                    match r.below(4) {
+                        0 => o.op(&format!("rtd 7 7 {}", r.pick(&ROUTES))),
+                        1 => {
+                            o.op("clone 5 7");
+                            o.op("clone 7 5");
+                        }
+                        _ => {}
+                    }
                     o.op(if r.chance(1, 2) { "merge 0 7" } else { "mergeffi 0 7" });
                     o.op(&format!("addffi 6 {}", show_nats(hs.iter().copied())));
                 }
@@ -483,11 +542,17 @@ fn gen(a: &Args) {
             if r.chance(1, 3) {
                 o.op("show 0");
             }
+            if ask && r.chance(1, 2) {
+                o.op(&format!("card 0 {}", api(&mut r)));
+            }
         }
         o.op("show 0");
         o.op("show 6");
         o.op("eq 0 6");
         o.op("dg 0");
+        o.op(&format!("card 0 {}", api(&mut r)));
+        o.op(&format!("card 6 {}", api(&mut r)));
+        o.op(&format!("est 0 6 {}", api(&mut r)));
         if r.chance(1, 3) {
             o.op(&format!("rtd 1 0 {}", r.pick(&ROUTES)));
             o.op("eq 1 0");
@@ -501,11 +566,13 @@ fn gen(a: &Args) {
         o.op(&format!("new 0 {} 21", p));
         o.op(&format!("fill 0 rnd {} {} 256", r.bits(40), r.range(m / 2, 4 * m)));
         o.op("dg 0");
+        o.op(&format!("card 0 {}", api(&mut r)));
         let (num, scaled) = if r.chance(1, 2) { (0, 1) } else { (r.range(500, 3000), 0) };
         let n = r.range(m, (10 * m).min(if thorough { 8000 } else { 5000 }).max(m));
         let hs: Vec<u64> = (0..n).map(|_| r.next()).collect();
         o.op(&format!("upd 0 {} vec {} {} 0 {}", if r.chance(1, 2) { "api" } else { "ffi" }, num, scaled, show_nats(hs.iter().copied())));
         o.op("dg 0");
+        o.op(&format!("card 0 {}", api(&mut r)));
         if p <= 9 {
             o.op("show 0");
         }
@@ -536,10 +603,20 @@ fn gen(a: &Args) {
                 }
                 for route in ROUTES.iter() {
                     // the one-byte reader on 2^18 registers is cheap; everything runs at every p
+                    // the receiver of the loaded sketch: empty, or a sparse one (whose content the
+                    // saved sketch gets as well, so that the merge must reproduce the saved sketch)
+                    o.op(&format!("new 3 {} {}", p, k));
+                    if r.chance(1, 2) {
+                        o.op(&format!("fill 3 rnd {} {} 256", r.bits(40), r.range(1, 40)));
+                        o.op("merge 0 3");
+                    }
                     o.op(&format!("rtd 1 0 {}", route));
                     if rep > 0 && r.chance(1, 4) {
                         o.op("eq 1 0");
                     }
+                    // what was loaded, merged INTO another sketch
+                    o.op(if r.chance(1, 2) { "merge 3 1" } else { "mergeffi 3 1" });
+                    o.op("eq 3 0");
                 }
                 o.op("eq 1 0");
                 // a loaded sketch keeps working and saves again
@@ -548,6 +625,110 @@ fn gen(a: &Args) {
                 o.op("eq 2 1");
             }
         }
+    }
+
+    // H: merging a sketch that was just LOADED / CLONED / CONVERTED (as_hll) into another one, and the
+    // other way round, before and after further adds: merge is the register-wise max whatever way
+    // the argument came into being.  Slot 0 = A, 1 = B, 2 = B after the route, 4 = the union sketched
+    // directly, 5 = a collector that starts empty.
+    for _ in 0..1200 * scale {
+        o.case("merge-loaded");
+        let conv = r.chance(1, 6);
+        let (p, k) = if conv { (14u32, 21u64) } else { (some_p(&mut r), some_k(&mut r)) };
+        let a = if r.chance(1, 5) { vec![] } else { multiset(&mut r, p, false) };
+        let mut b = multiset(&mut r, p, false);
+        if b.is_empty() {
+            b.push(some_hash(&mut r, p));
+        }
+        o.op(&format!("new 0 {} {}", p, k));
+        emit_adds(&mut o, &mut r, 0, &a);
+        let mut all = a.clone();
+        if conv {
+            // B = as_hll() of a MinHash
+            let (num, scaled) = mh_params(&mut r);
+            let hs = mh_hashes(&mut r, p, scaled);
+            o.op(&format!("ashll 1 {} {} {}", num, scaled, show_nats(hs.iter().copied())));
+            all.extend(mins_of(num, scaled, &hs));
+        } else {
+            o.op(&format!("new 1 {} {}", p, k));
+            emit_adds(&mut o, &mut r, 1, &b);
+            all.extend(b.iter().copied());
+        }
+        // how the argument comes into being
+        let src = match r.below(if conv { 7 } else { 6 }) {
+            0 | 1 => {
+                o.op(&format!("rtd 2 1 {}", r.pick(&ROUTES)));
+                2
+            }
+            2 => {
+                o.op(&format!("rt 2 1 {}", r.pick(&["plain", "gz", "file", "ffi"])));
+                2
+            }
+            3 => {
+                o.op("clone 2 1");
+                2
+            }
+            4 => {
+                // a clone of a loaded one
+                o.op(&format!("rtd 3 1 {}", r.pick(&ROUTES)));
+                o.op("clone 2 3");
+                2
+            }
+            5 => {
+                // loaded twice
+                o.op(&format!("rtd 3 1 {}", r.pick(&ROUTES)));
+                o.op(&format!("rtd 2 3 {}", r.pick(&ROUTES)));
+                2
+            }
+            _ => 1, // the converted sketch itself
+        };
+        // further adds into the argument BEFORE the merge, now and then
+        if r.chance(1, 4) {
+            let more = multiset(&mut r, p, false);
+            emit_adds(&mut o, &mut r, src, &more);
+            all.extend(more);
+        }
+        let ask = r.chance(1, 2);
+        if ask {
+            o.op(&format!("card 0 {}", api(&mut r)));
+            o.op(&format!("est 0 {} {}", src, api(&mut r)));
+        }
+        // the collector first (it must end up equal to the argument)
+        o.op(&format!("new 5 {} {}", p, k));
+        o.op(&format!("{} 5 {}", if r.chance(1, 2) { "merge" } else { "mergeffi" }, src));
+        o.op(&format!("eq 5 {}", src));
+        o.op(&format!("{} 0 {}", if r.chance(1, 2) { "merge" } else { "mergeffi" }, src));
+        if p <= 9 {
+            o.op("show 0");
+        } else {
+            o.op("dg 0");
+        }
+        if ask {
+            o.op(&format!("card 0 {}", api(&mut r)));
+            o.op(&format!("est 0 {} {}", src, api(&mut r)));
+        }
+        shuffle(&mut r, &mut all);
+        o.op(&format!("new 4 {} {}", p, k));
+        emit_adds(&mut o, &mut r, 4, &all);
+        o.op("eq 0 4");
+        // further adds into the receiver AFTER the merge
+        if r.chance(1, 3) {
+            let more = multiset(&mut r, p, false);
+            emit_adds(&mut o, &mut r, 0, &more);
+            emit_adds(&mut o, &mut r, 4, &more);
+            o.op("eq 0 4");
+            if ask {
+                o.op(&format!("card 0 {}", api(&mut r)));
+            }
+        }
+        // the other direction: the loaded / cloned / converted sketch as the receiver
+        o.op(&format!("merge {} 0", src));
+        o.op(&format!("eq {} 0", src));
+        o.op(&format!("dg {}", src));
+        // and what it received is handed on when it is the argument again
+        o.op(&format!("new 6 {} {}", p, k));
+        o.op(&format!("merge 6 {}", src));
+        o.op("eq 6 4");
     }
 
     // E: malformed files
@@ -806,8 +987,42 @@ fn round_trip(src: &HyperLogLog, route: &str) -> Result<HyperLogLog, sourmash::E
             }
             HyperLogLog::from_reader(&sw.data[..])
         }
+        "json" => {
+            let v = serde_json::to_vec(src).unwrap();
+            Ok(serde_json::from_slice::<HyperLogLog>(&v).unwrap())
+        }
         _ => panic!("route"),
     }
+}
+
+/// f64 as its bit pattern; NaN (0/0 of two empty sketches) has no canonical bits
+fn fbits(x: f64) -> String {
+    if x.is_nan() {
+        "nan".into()
+    } else {
+        format!("{:016x}", x.to_bits())
+    }
+}
+
+/// shared borrows of two slots (possibly the same one)
+fn two(st: &St, a: usize, b: usize) -> Option<(&HyperLogLog, &HyperLogLog)> {
+    match (st[a].as_ref(), st[b].as_ref()) {
+        (Some(x), Some(y)) => Some((x, y)),
+        _ => None,
+    }
+}
+
+/// `dst` mutably and `src` shared, WITHOUT copying either (a copy could differ from the object in
+/// whatever a sketch carries besides its registers); only `merge x x` needs a clone of the argument
+fn with_pair<R>(st: &mut St, d: usize, s: usize, f: impl FnOnce(&mut HyperLogLog, &HyperLogLog) -> R) -> Option<R> {
+    if d == s {
+        let src = st[s].clone()?;
+        return st[d].as_mut().map(|dst| f(dst, &src));
+    }
+    let src = st[s].take()?;
+    let r = st[d].as_mut().map(|dst| f(dst, &src));
+    st[s] = Some(src);
+    r
 }
 
 /// a KmerMinHash (directly, or converted from a KmerMinHashBTree) that received `hs` in this order
@@ -943,39 +1158,81 @@ fn step(st: &mut St, ws: &[&str]) -> String {
         }
         "mergeffi" => {
             let (d, s) = (slot(1), slot(2));
-            let src = match st[s].clone() {
-                Some(x) => x,
-                None => return "none".into(),
-            };
-            match st[d].as_mut() {
-                Some(dst) => {
-                    unsafe { hll_merge(dst as *mut HyperLogLog as *mut SourmashHyperLogLog, SourmashHyperLogLog::from_ref(&src)) };
-                    match take_ffi_error() {
-                        Some(e) => err_name(&e),
-                        None => "ok".into(),
-                    }
+            let r = with_pair(st, d, s, |dst, src| {
+                unsafe { hll_merge(dst as *mut HyperLogLog as *mut SourmashHyperLogLog, SourmashHyperLogLog::from_ref(src)) };
+                match take_ffi_error() {
+                    Some(e) => err_name(&e),
+                    None => format!("ok nz={}", nz(dst)),
+                }
+            });
+            r.unwrap_or_else(|| "none".into())
+        }
+        "clone" => {
+            let (d, s) = (slot(1), slot(2));
+            match st[s].as_ref() {
+                Some(src) => {
+                    let c = src.clone();
+                    let r = format!("{} same={}", digest(&c), c == *src);
+                    st[d] = Some(c);
+                    r
                 }
                 None => "none".into(),
             }
         }
+        "card" => match st[slot(1)].as_ref() {
+            Some(h) => {
+                if ws[2] == "ffi" {
+                    let n = unsafe { hll_cardinality(SourmashHyperLogLog::from_ref(h)) };
+                    match take_ffi_error() {
+                        Some(e) => err_name(&e),
+                        None => n.to_string(),
+                    }
+                } else {
+                    h.cardinality().to_string()
+                }
+            }
+            None => "none".into(),
+        },
+        "est" => match two(st, slot(1), slot(2)) {
+            Some((a, b)) => {
+                if ws[3] == "ffi" {
+                    let (pa, pb) = unsafe { (SourmashHyperLogLog::from_ref(a), SourmashHyperLogLog::from_ref(b)) };
+                    let (i, s, c) = unsafe { (hll_intersection_size(pa, pb), hll_similarity(pa, pb), hll_containment(pa, pb)) };
+                    match take_ffi_error() {
+                        Some(e) => err_name(&e),
+                        None => format!("i={} s={} c={}", i, fbits(s), fbits(c)),
+                    }
+                } else {
+                    format!("u={} i={} s={} c={}", a.union(b), a.intersection(b), fbits(a.similarity(b)), fbits(a.containment(b)))
+                }
+            }
+            None => "none".into(),
+        },
         "dg" => match st[slot(1)].as_ref() {
             Some(h) => digest(h),
             None => "none".into(),
         },
         "rtd" => {
-            let src = match st[slot(2)].clone() {
+            let (d, s) = (slot(1), slot(2));
+            let src = match st[s].take() {
                 Some(x) => x,
                 None => return "none".into(),
             };
-            st[slot(1)] = None;
-            match round_trip(&src, ws[3]) {
-                Ok(h) => {
+            st[d] = None;
+            let res = std::panic::catch_unwind(std::panic::AssertUnwindSafe(|| round_trip(&src, ws[3])));
+            let out = match res {
+                Ok(Ok(h)) => {
                     let r = format!("{} same={}", digest(&h), h == src);
-                    st[slot(1)] = Some(h);
+                    st[d] = Some(h);
                     r
                 }
-                Err(e) => err_name(&e),
+                Ok(Err(e)) => err_name(&e),
+                Err(_) => "PANIC".into(),
+            };
+            if d != s {
+                st[s] = Some(src);
             }
+            out
         }
         "show" => match st[slot(1)].as_ref() {
             Some(h) => show(h),
@@ -987,28 +1244,24 @@ fn step(st: &mut St, ws: &[&str]) -> String {
         },
         "merge" | "refused" => {
             let (d, s) = (slot(1), slot(2));
-            let src = match st[s].clone() {
-                Some(x) => x,
-                None => return "none".into(),
-            };
-            let dst = match st[d].as_mut() {
-                Some(x) => x,
-                None => return "none".into(),
-            };
-            let before = dst.clone();
-            let res = dst.merge(&src);
-            if ws[0] == "merge" {
-                match res {
-                    Ok(()) => "ok".into(),
-                    Err(e) => err_name(&e),
+            let refused = ws[0] == "refused";
+            let r = with_pair(st, d, s, |dst, src| {
+                let before = if refused { Some(dst.clone()) } else { None };
+                let res = dst.merge(src);
+                if !refused {
+                    match res {
+                        Ok(()) => format!("ok nz={}", nz(dst)),
+                        Err(e) => err_name(&e),
+                    }
+                } else {
+                    match res {
+                        Ok(()) => "merged".into(),
+                        Err(_) if Some(&*dst) == before.as_ref() => "refused unchanged".into(),
+                        Err(_) => "refused changed".into(),
+                    }
                 }
-            } else {
-                match res {
-                    Ok(()) => "merged".into(),
-                    Err(_) if *dst == before => "refused unchanged".into(),
-                    Err(_) => "refused changed".into(),
-                }
-            }
+            });
+            r.unwrap_or_else(|| "none".into())
         }
         "save" => match st[slot(1)].as_ref() {
             Some(h) => {
@@ -1018,7 +1271,8 @@ fn step(st: &mut St, ws: &[&str]) -> String {
             None => "none".into(),
         },
         "rt" => {
-            let src = match st[slot(2)].clone() {
+            let (d, sl) = (slot(1), slot(2));
+            let src = match st[sl].take() {
                 Some(x) => x,
                 None => return "none".into(),
             };
@@ -1045,19 +1299,26 @@ fn step(st: &mut St, ws: &[&str]) -> String {
                     src.save(&path).unwrap();
                     HyperLogLog::from_path(&path)
                 }
-                _ => return "bad-op".into(),
+                _ => {
+                    st[sl] = Some(src);
+                    return "bad-op".into();
+                }
             };
-            match loaded {
+            let out = match loaded {
                 Ok(h) => {
                     let r = format!("{} same={}", show(&h), h == src);
-                    st[slot(1)] = Some(h);
+                    st[d] = Some(h);
                     r
                 }
                 Err(e) => {
-                    st[slot(1)] = None;
+                    st[d] = None;
                     err_name(&e)
                 }
+            };
+            if d != sl {
+                st[sl] = Some(src);
             }
+            out
         }
         "loadraw" => {
             st[slot(1)] = None;
